@@ -208,9 +208,13 @@ static ChildResult run_child(const ChildSpec& cs) {
     std::string errpath = g_rundir + "/child." + std::to_string(getpid()) + ".err";
     fflush(stdout); fflush(stderr);
     double t_child0 = now_s();
+    const size_t MIRROR_CAP = 1u << 21;
+    uint32_t* mirror = (uint32_t*)mmap(nullptr, MIRROR_CAP * 4, PROT_READ | PROT_WRITE, MAP_SHARED | MAP_ANONYMOUS, -1, 0);
+    if (mirror == MAP_FAILED) mirror = nullptr; else mirror[0] = 0;
     pid_t pid = fork();
     if (pid == 0) {
         close(pfd[0]);
+        T.mirror = mirror; T.mirror_cap = MIRROR_CAP;
         int efd = open(errpath.c_str(), O_WRONLY | O_CREAT | O_TRUNC, 0644);
         if (efd >= 0) { dup2(efd, 2); close(efd); }
         alarm(cs.timeout_s);
@@ -218,6 +222,7 @@ static ChildResult run_child(const ChildSpec& cs) {
             RunCtx wc; wc.seed = cs.seed; wc.index = (uint64_t)cs.warm; wc.thorough = cs.thorough;
             T.start_generate(cs.seed, fnv(cs.P->id, strlen(cs.P->id)), (uint64_t)cs.warm);
             (void)execute(cs.P, wc, false);
+            if (T.mirror) T.mirror[0] = 0;
         }
         RunCtx ctx; ctx.seed = cs.seed; ctx.index = cs.index; ctx.thorough = cs.thorough;
         ctx.focus = cs.focus; ctx.focus2 = cs.focus2;
@@ -274,8 +279,10 @@ static ChildResult run_child(const ChildSpec& cs) {
         }
         size_t fp = cr.stderr_text.rfind("SIM-FOCUS ");
         if (fp != std::string::npos) sscanf(cr.stderr_text.c_str() + fp + 10, "%" SCNd64 " %" SCNd64, &cr.focus, &cr.focus2);
-        // tags/tape of a run that died are obtained from a dry child (plan only) by the caller when needed
+        // the tape the dead run had consumed so far (mirrored into shared memory draw by draw)
+        if (mirror && cr.status != 3) cr.tape.assign(mirror + 1, mirror + 1 + mirror[0]);
     }
+    if (mirror) munmap(mirror, MIRROR_CAP * 4);
     return cr;
 }
 
@@ -383,6 +390,7 @@ static bool read_replay(const std::string& path, std::string* prop, uint64_t* se
 // ---------------------------------------------------------------- workers
 static void worker_main(const Property* P, int w, uint64_t seed, bool thorough) {
     cov_attach(SH->cov, COV_BYTES);
+    g_heartbeat = &SH->heartbeat[w];
     uint64_t pid_hash = fnv(P->id, strlen(P->id));
     while (!__atomic_load_n(&SH->stop, __ATOMIC_RELAXED)) {
         uint64_t idx = __atomic_fetch_add(&SH->next_index, 1, __ATOMIC_RELAXED);
@@ -561,9 +569,9 @@ int main(int argc, char** argv) {
             double t = now_s();
             for (int i = 0; i < jobs; i++) {
                 if (!pids[(size_t)i]) continue;
-                uint64_t ci = SH->cur_index[i];
+                uint64_t ci = SH->cur_index[i] ^ (SH->heartbeat[i] << 20);       // index or progress inside the run
                 if (ci != last_idx[(size_t)i]) { last_idx[(size_t)i] = ci; last_change[(size_t)i] = t; }
-                else if (ci != ~0ull && t - last_change[(size_t)i] > 90) { kill(pids[(size_t)i], SIGKILL); last_change[(size_t)i] = t; }
+                else if (SH->cur_index[i] != ~0ull && t - last_change[(size_t)i] > 90) { kill(pids[(size_t)i], SIGKILL); last_change[(size_t)i] = t; }
             }
             continue;
         }
@@ -591,7 +599,7 @@ int main(int argc, char** argv) {
     struct Cand { uint64_t index; std::string sig; };
     std::vector<Cand> cands;
     for (int i = 0; i < SH->n_viol; i++) cands.push_back({SH->viol[i].index, SH->viol[i].sig});
-    for (auto& d : deaths) cands.push_back({d.index, "?death"});
+    for (auto& d : deaths) cands.push_back({d.index, d.sig == SIGKILL ? "?killed" : "?death"});
     int exit_status = 0;
     int n_reported = 0;
     std::set<std::string> reported_sigs, reported_kf;
@@ -599,11 +607,12 @@ int main(int argc, char** argv) {
     int shrink_execs = 0;
     uint64_t death_known = 0, death_new = 0;
     for (auto& c : cands) {
-        if (n_reported >= 6 && c.sig == "?death") { continue; }
+        if (n_reported >= 6 && c.sig[0] == '?') { continue; }
         ChildSpec cs{P, seed, c.index, thorough}; cs.keep_text = true;
         ChildResult r1 = run_child(cs);
         printf("triage: index %" PRIu64 " (%s) -> %s [%.1fs]\n", c.index, c.sig.c_str(), r1.sig.c_str(), r1.wall); fflush(stdout);
         if (r1.status == 3) { printf("MACHINERY-FAILURE: harness bug at index %" PRIu64 ": %s\n", c.index, r1.detail.c_str()); return 2; }
+        if (r1.status != 1 && c.sig == "?killed") { printf("note: index %" PRIu64 " made no progress for 90 s in a worker but completes in a fresh process (%.1fs): machine load, not a verdict\n", c.index, r1.wall); continue; }
         if (r1.status != 1) {
             printf("MACHINERY-FAILURE: index %" PRIu64 " (%s) did not reproduce in a fresh process (status=%d) - harness nondeterministic\n", c.index, c.sig.c_str(), r1.status);
             return 2;
@@ -620,19 +629,20 @@ int main(int argc, char** argv) {
             ChildResult rp = run_child(cs);
             unsetenv("SIM_PLAN_ONLY");
             tags = rp.tags;
-            r1.tape = rp.tape; r1.sample = rp.sample;
+            if (r1.tape.empty()) r1.tape = rp.tape;
+            r1.sample = rp.sample;
             r1.tags = tags;
         }
         const KF* k = match_kf(r1.sig, tags);
         if (k) {
-            if (c.sig == "?death") death_known++;
+            if (c.sig[0] == '?') death_known++;
             if (!reported_kf.count(k->id)) {
                 reported_kf.insert(k->id);
                 kf_lines.push_back("KNOWN-FINDING: property=" + std::string(P->id) + " " + k->id + ": " + k->what + " (e.g. seed " + std::to_string(seed) + " index " + std::to_string(c.index) + ")");
             }
             continue;
         }
-        if (c.sig == "?death") death_new++;
+        if (c.sig[0] == '?') death_new++;
         if (reported_sigs.count(r1.sig)) continue;
         // gate 1: same seed twice, same signature and (for surviving runs) same event hash
         ChildResult r2 = run_child(cs);
@@ -648,10 +658,12 @@ int main(int argc, char** argv) {
         ChildSpec fs{P, seed, c.index, thorough}; fs.use_tape = true; fs.tape = best.tape; fs.focus = best.focus; fs.focus2 = best.focus2; fs.keep_text = true;
         ChildResult rf = run_child(fs);
         if (rf.status != 1 || rf.sig != r1.sig) {
-            // minimised tape does not replay: fall back to the unminimised one
+            // minimised tape does not replay with the same signature: fall back to the unminimised one
             fs.tape = r1.tape; fs.focus = r1.focus; fs.focus2 = r1.focus2;
             rf = run_child(fs);
-            if (rf.status != 1 || rf.sig != r1.sig) { printf("MACHINERY-FAILURE: replay of index %" PRIu64 " does not reproduce %s\n", c.index, r1.sig.c_str()); return 2; }
+            if (rf.status != 1) { printf("MACHINERY-FAILURE: replay of index %" PRIu64 " does not reproduce %s\n", c.index, r1.sig.c_str()); return 2; }
+            // it fails again, possibly at another frame (memory errors after a use-after-free are like that): still a violation
+            if (rf.sig != r1.sig) printf("note: index %" PRIu64 " fails on every execution but not always with the same signature (%s / %s)\n", c.index, r1.sig.c_str(), rf.sig.c_str());
         }
         if (!rf.ok_exec) { rf.tape = fs.tape; rf.focus = fs.focus; rf.focus2 = fs.focus2; rf.sample = best.sample; rf.tags = tags; }
         std::string path = write_replay(P, seed, c.index, thorough, rf);
